@@ -4,30 +4,48 @@
    XmlText_proofs.v, Utf16_proofs.v.
    The XML models start at the event list delivered by quick-xml (already unescaped strings):
    entity / character-reference spelling is below that level and is sampled by the end-to-end
-   runs of tools/props/c19.py.  Source state: /repo at db4dbf4.
-   Known classes left (known_item / known_store / known_content): F35 ods <text:tab/>, F36 ods
-   <text:line-break/>, F37 xlsx _xHHHH_ escapes (ST_Xstring) not decoded.  The former classes
-   F12 (CDATA sections dropped) and F34 (prefixed <x:si>/<x:is> without a plain <t> never
-   closed) were repaired by db4dbf4 / 7dba6c7: the theorems below now cover CDATA in every text
-   position and rich / empty items under every namespace prefix. *)
+   runs of tools/props/c19.py.  Source state: /repo at 9abe48a (6af5287 + C06 hardening).
+   No known class is left: F12 (CDATA dropped), F34 (prefixed rich items never closed), F35
+   (text:tab), F36 (text:line-break) and F37 (_xHHHH_ not decoded) were repaired by db4dbf4,
+   7dba6c7, 69a4591 and 6af5287; no theorem below carries a known-class hypothesis, and the former
+   witnesses are examples at the end of this file. *)
 From Calamine Require Import Prelude XmlText XmlText_proofs Utf16 Utf16_proofs.
 Open Scope N_scope.
 
+(* ---------- the ST_Xstring layer (ECMA-376 _xHHHH_) ---------- *)
+(* M = S: the Rust decoder unescape_xstring computes the specification's decoding, on every string *)
+Theorem C19_xstring_decode_is_spec : forall s, unescape_xstring s = xunescape s.
+Proof. exact unescape_xstring_spec. Qed.
+
+(* E then S: every string, written the way Excel writes it (every underscore as _x005F_, any
+   choice [must] of further characters as _xHHHH_), denotes itself *)
+Theorem C19_xstring_roundtrip : forall must s, xunescape (xescape must s) = s.
+Proof. exact xescape_roundtrip. Qed.
+
+(* E then M, end to end: such a writing of s, spread over text and CDATA chunks in any way, in a
+   plain <t> under any prefix, reads back as s *)
+Theorem C19_xstring_text_survives : forall pfx cl must s preserve tc after rest,
+  no_colon pfx = true -> cl_ok cl -> forallb is_phonetic after = true ->
+  tc_raw tc = xescape must s ->
+  read_string (qn pfx cl) (item_events pfx (FPlain preserve tc after) ++ End (qn pfx cl) :: rest) =
+  Ok (Some s, rest).
+Proof. exact xstring_text_survives. Qed.
+
 (* ---------- xlsx: one string item (<si> or <is>), any form, any prefix ---------- *)
 Theorem C19_read_string_item : forall pfx cl f rest,
-  no_colon pfx = true -> cl_ok cl -> legal_form f = true -> known_item f = None ->
+  no_colon pfx = true -> cl_ok cl -> legal_form f = true ->
   read_string (qn pfx cl) (item_events pfx f ++ End (qn pfx cl) :: rest) = Ok (item_result f, rest).
 Proof. exact read_string_item. Qed.
 
 Theorem C19_runs_concatenate : forall pfx cl ps rest,
   no_colon pfx = true -> cl_ok cl -> forallb legal_piece ps = true ->
-  known_item (FRich ps) = None ->
   existsb (fun p => negb (is_phonetic p)) ps = true ->
   read_string (qn pfx cl) (flat_map (piece_events pfx) ps ++ End (qn pfx cl) :: rest) =
   Ok (Some (flat_map piece_text ps), rest).
 Proof. exact runs_concatenate. Qed.
 
-(* any string, cut into runs at any points that do not fall inside an _xHHHH_ escape *)
+(* any string, cut into runs at any points that do not fall inside an _xHHHH_ escape (each <t>
+   is an ST_Xstring of its own: an escape cut by a run boundary is no escape — a fact about S) *)
 Theorem C19_runs_at_any_cuts : forall pfx cl cuts s rest,
   no_colon pfx = true -> cl_ok cl -> cuts_ok cuts s = true ->
   read_string (qn pfx cl) (item_events pfx (runs_of cuts s) ++ End (qn pfx cl) :: rest) =
@@ -35,14 +53,13 @@ Theorem C19_runs_at_any_cuts : forall pfx cl cuts s rest,
 Proof. exact runs_at_any_cuts. Qed.
 
 Theorem C19_phonetic_contributes_nothing : forall pfx cl f rest rest',
-  no_colon pfx = true -> cl_ok cl -> legal_form f = true -> known_item f = None ->
+  no_colon pfx = true -> cl_ok cl -> legal_form f = true ->
   exists r,
     read_string (qn pfx cl) (item_events pfx f ++ End (qn pfx cl) :: rest) = Ok (r, rest) /\
     read_string (qn pfx cl) (item_events pfx (strip_phonetic f) ++ End (qn pfx cl) :: rest') = Ok (r, rest').
 Proof. exact phonetic_contributes_nothing. Qed.
 
-(* entity vs CDATA: a CDATA section reads exactly like the same characters written as text, in
-   every <t> of every legal form (no known-class hypothesis) *)
+(* entity vs CDATA: a CDATA section reads exactly like the same characters written as text *)
 Theorem C19_cdata_is_text : forall pfx cl f rest,
   no_colon pfx = true -> cl_ok cl -> legal_form f = true ->
   read_string (qn pfx cl) (item_events pfx f ++ End (qn pfx cl) :: rest) =
@@ -52,27 +69,16 @@ Proof. exact cdata_is_text. Qed.
 (* ---------- xlsx: the shared-string table ---------- *)
 Theorem C19_shared_index_is_ith_item : forall pfx sattrs items,
   no_colon pfx = true ->
-  forallb (fun it => legal_form (snd it)) items = true -> known_items items = None ->
+  forallb (fun it => legal_form (snd it)) items = true ->
   exists strs, read_shared_strings (sst_events pfx sattrs items) = Ok strs /\
     length strs = length items /\
     forall i, nth_error strs i = option_map (fun it => item_text (snd it)) (nth_error items i).
 Proof. exact shared_index_is_ith_item. Qed.
 
-(* positions survive whatever the items hold: an item of class F37 spoils only itself *)
-Theorem C19_shared_table_positional : forall pfx sattrs items,
-  no_colon pfx = true ->
-  forallb (fun it => legal_form (snd it)) items = true ->
-  exists strs, read_shared_strings (sst_events pfx sattrs items) = Ok strs /\
-    length strs = length items /\
-    forall i ws f, nth_error items i = Some (ws, f) -> known_item f = None ->
-      nth_error strs i = Some (item_text f).
-Proof. exact shared_table_positional. Qed.
-
 (* ---------- xlsx: shared / inline / formula-string cells ---------- *)
 Theorem C19_text_survives_xlsx : forall pfx sattrs items ref st s rest,
   no_colon pfx = true ->
   forallb (fun it => legal_form (snd it)) items = true -> legal_store st = true ->
-  known_xlsx items st = None ->
   stored_text items st = Some s ->
   exists strings,
     read_shared_strings (sst_events pfx sattrs items) = Ok strings /\
@@ -99,20 +105,18 @@ Proof. exact sheet_formulas_survive. Qed.
 (* ---------- ods ---------- *)
 Theorem C19_ods_space_paragraph_roundtrip : forall cname extra cs rest,
   cell_name_ok cname -> legal_extra extra = true -> legal_content cs = true ->
-  known_content cs = None ->
   ods_cell cname (ods_cell_attrs extra (OsContent cs)) (ods_cell_events cname (OsContent cs) ++ rest) =
   Ok (OString (content_text cs), [], rest).
 Proof. exact ods_space_paragraph_roundtrip. Qed.
 
 Theorem C19_text_survives_ods : forall cname extra st rest,
   cell_name_ok cname -> legal_extra extra = true -> legal_ods_full cname st = true ->
-  known_ods st = None ->
   ods_cell cname (ods_cell_attrs extra st) (ods_cell_events cname st ++ rest) =
   Ok (OString (ods_text st), [], rest).
 Proof. exact text_survives_ods. Qed.
 
-(* every string at all has an ods encoding (one text:p per line, every space a <text:s/>)
-   that is legal, outside the known classes, and reads back *)
+(* every string at all has an ods encoding (one text:p per line, every space a <text:s/>, every
+   TAB a <text:tab/>) that is legal and reads back *)
 Theorem C19_ods_encode_survives : forall s rest,
   ods_cell o_cell (ods_cell_attrs [] (OsContent (ods_encode s)))
            (ods_cell_events o_cell (OsContent (ods_encode s)) ++ rest) = Ok (OString s, [], rest).
@@ -154,43 +158,55 @@ Theorem C19_decode_to_16bit : forall s rest, Forall scalar s ->
   (s, utf16_len s, 2 * utf16_len s).
 Proof. exact decode_to_16bit. Qed.
 
-(* ---------- refutations: the remaining known classes are genuine ---------- *)
-(* each of these three blocks disappears with its switch (XmlText.v): see notes/C19.md *)
-Theorem C19_refuted_F37 :
-  exists f, legal_form f = true /\ known_item f = Some K_F37 /\
-    item_text f = [97; 13] /\
-    forall rest, read_string n_si (item_events [] f ++ End n_si :: rest) =
-                 Ok (Some [97; 95; 120; 48; 48; 48; 68; 95], rest).
-Proof. exact refuted_F37. Qed.
+(* ---------- totality (listed for C06): no input at all makes these readers panic ---------- *)
+(* ∀ closing name, ∀ event list — no well-formedness hypothesis; the models use no fuel, so
+   "never OutOfFuel" is part of the statement *)
+Theorem C19_no_panic_read_string : forall closing evs,
+  read_string closing evs <> Panic /\ read_string closing evs <> OutOfFuel.
+Proof. exact read_string_total. Qed.
 
-Theorem C19_refuted_F37_formula :
-  exists st, legal_store st = true /\ known_store st = Some K_F37 /\
-    stored_text [] st = Some [10] /\
-    read_cell [] (cell_attrs [65; 49] st) (cell_events [] st) =
-    Ok (CString [95; 120; 48; 48; 48; 97; 95], []).
-Proof. exact refuted_F37_formula. Qed.
+Theorem C19_no_panic_read_shared_strings : forall evs,
+  read_shared_strings evs <> Panic /\ read_shared_strings evs <> OutOfFuel.
+Proof. exact read_shared_strings_total. Qed.
 
-Theorem C19_refuted_F35 :
-  exists cs, legal_content cs = true /\ known_content cs = Some K_F35 /\
-    content_text cs = [97; 9; 98] /\
-    ods_cell o_cell (ods_cell_attrs [] (OsContent cs)) (ods_cell_events o_cell (OsContent cs)) =
-    Ok (OString [97; 98], [], []).
-Proof. exact refuted_F35. Qed.
+(* ∀ shared-string table, ∀ attributes of <c>, ∀ event list: in particular a shared index outside
+   the table is an error now *)
+Theorem C19_no_panic_read_cell : forall strings cattrs evs,
+  read_cell strings cattrs evs <> Panic /\ read_cell strings cattrs evs <> OutOfFuel.
+Proof. exact read_cell_total. Qed.
 
-Theorem C19_refuted_F36 :
-  exists cs, legal_content cs = true /\ known_content cs = Some K_F36 /\
-    content_text cs = [97; 10; 98] /\
-    ods_cell o_cell (ods_cell_attrs [] (OsContent cs)) (ods_cell_events o_cell (OsContent cs)) =
-    Ok (OString [97; 98], [], []).
-Proof. exact refuted_F36. Qed.
+Theorem C19_no_panic_read_sheet_cells : forall strings evs,
+  read_sheet_cells strings evs <> Panic /\ read_sheet_cells strings evs <> OutOfFuel.
+Proof. exact read_sheet_cells_total. Qed.
+
+Theorem C19_no_panic_read_sheet_formulas : forall evs,
+  read_sheet_formulas evs <> Panic /\ read_sheet_formulas evs <> OutOfFuel.
+Proof. exact read_sheet_formulas_total. Qed.
+
+(* ∀ cell name, attributes, event list: in particular Eof inside office:annotation ends with an
+   error instead of reading forever *)
+Theorem C19_no_panic_ods_cell : forall cname a evs,
+  ods_cell cname a evs <> Panic /\ ods_cell cname a evs <> OutOfFuel.
+Proof. exact ods_cell_total. Qed.
+
+(* ∀ byte string: a buffer shorter than its length prefix, or than four bytes, is an error *)
+Theorem C19_no_panic_wide_str : forall buf, wide_str buf <> Panic.
+Proof. exact wide_str_no_panic. Qed.
+
+(* the former panic / non-termination inputs *)
+Example C19_hardening_witnesses :
+  read_cell [[97]] [(a_t, v_s)] [Start n_v []; Text [49]; End n_v; End n_c] = Err ERR_INDEX /\
+  ods_cell o_cell [(o_value_type, v_string)] [Start o_annot []; Text [110]] = Err ERR_EOF /\
+  wide_str [1; 0; 0] = Err ERR_WIDESTR /\ wide_str [2; 0; 0; 0; 97; 0] = Err ERR_WIDESTR.
+Proof. repeat split; vm_compute; reflexivity. Qed.
 
 (* ---------- non-vacuity ---------- *)
 (* under the prefix "x": a plain item holding text + CDATA + comment + text with phonetic data;
    an empty item; a rich item with run properties, phonetic runs interleaved, an empty run, a run
    made of two adjacent CDATA sections (the way "]]>" is embedded) and a run mixing text and
-   CDATA; shared cells pointing at them (one through a zero-padded index), an inline string and
-   a formula string whose <f> and <v> hold CDATA.  The former F34 / F12 witnesses are among them
-   and read correctly. *)
+   CDATA; an item whose <t> holds escapes (one split over a Text/CDATA boundary); shared cells
+   pointing at them (one through a zero-padded index), an inline string and a formula string
+   whose <f> and <v> hold CDATA and an escape. *)
 Example C19_xlsx_nonvacuous :
   let x := [120] in
   let rich := FRich [PRun [([98], []); ([115; 122], [([118; 97; 108], [49; 49])])] true [TcText [97; 32]];
@@ -198,36 +214,80 @@ Example C19_xlsx_nonvacuous :
                      PRun [] false []; PRun [] false [TcText [38]; TcCData [60; 98]; TcOther; TcText [62]];
                      PPhonPr] in
   let items := [([], FPlain true [TcText [32; 97]; TcCData [60; 38]; TcOther; TcText [98; 32]] [PPhon [TcText [120]]; PPhonPr]);
-                ([10; 32], FRich []); ([], rich)] in
+                ([10; 32], FRich []); ([], rich);
+                ([], FPlain false [TcText [97; 95; 120; 48; 48]; TcCData [48; 68; 95; 95; 120; 48; 48; 53; 70; 95]] [])] in
   let cells := [([], [65; 49], StShared [48; 48; 50]);
                 ([([114], [50])], [65; 50], StInline (FPlain true [TcCData [32]] [PPhonPr]));
-                ([], [65; 51], StFormula [TcText [49]; TcCData [60; 50]] [TcCData [60]; TcText [9; 10]]);
-                ([], [65; 52], StInline (FRich [])); ([], [65; 53], StShared [49])] in
+                ([], [65; 51], StFormula [TcText [49]; TcCData [60; 50]] [TcCData [60]; TcText [9; 95; 120; 48; 48; 48; 97; 95]]);
+                ([], [65; 52], StInline (FRich [])); ([], [65; 53], StShared [49]); ([], [65; 54], StShared [51])] in
   no_colon x = true /\ cl_ok n_si /\ cl_ok n_is /\
   forallb (fun it => legal_form (snd it)) items = true /\
-  known_items items = None /\
-  known_xlsx items (StShared [50]) = None /\
   stored_text items (StShared [50]) = Some [97; 32; 93; 93; 62; 38; 60; 98; 62] /\
   existsb (fun p => negb (is_phonetic p)) (match rich with FRich ps => ps | _ => [] end) = true /\
   cuts_ok [2%nat; 0%nat; 3%nat] [32; 97; 38; 95; 120; 60; 128512; 32] = true /\
+  cuts_ok [3%nat] [97; 95; 120; 48; 48; 48; 68; 95] = true /\ cuts_ok [] [97; 95; 120; 48; 48; 48; 68; 95] = false /\
   forallb (cell_ok items) cells = true /\
   forallb (fun c => legal_store (snd c)) cells = true /\
   read_shared_strings (sst_events x [] items) =
-    Ok [[32; 97; 60; 38; 98; 32]; []; [97; 32; 93; 93; 62; 38; 60; 98; 62]] /\
-  map snd (map fcell_spec cells) = [FvNone; FvNone; FvText [49; 60; 50]; FvNone; FvNone].
+    Ok [[32; 97; 60; 38; 98; 32]; []; [97; 32; 93; 93; 62; 38; 60; 98; 62]; [97; 13; 95]] /\
+  map snd (map (cell_spec items) cells) =
+    [CString [97; 32; 93; 93; 62; 38; 60; 98; 62]; CString [32]; CString [60; 9; 10]; CEmpty; CString [];
+     CString [97; 13; 95]] /\
+  map snd (map fcell_spec cells) = [FvNone; FvNone; FvText [49; 60; 50]; FvNone; FvNone; FvNone].
 Proof. cbn zeta. repeat split; try (left; reflexivity); try (right; reflexivity); vm_compute; reflexivity. Qed.
 
 (* ods: an annotation, text:s with and without count, spans, a comment, CDATA sections (alone,
-   adjacent, inside a span), an empty paragraph *)
+   adjacent, inside a span), text:tab and text:line-break (also inside a span), an empty paragraph *)
 Example C19_ods_nonvacuous :
-  let cs := [CAnnot [Start o_p []; Text [110]; End o_p];
-             CPara [OSp (Some [51]); OLit [97; 32]; OSpanOpen [84]; OSp None; OCD [98; 60]; OSpanClose;
-                    OSp (Some [48]); OOther; OCD [93; 93]; OCD [62]; OLit [9]];
-             CPara []; CPara [OCD [99]]] in
+  let cs := [CAnnot [Start o_p []; Text [110]; Start o_tab []; End o_tab; End o_p];
+             CPara [OSp (Some [51]); OLit [97; 32]; OSpanOpen [84]; OSp None; OCD [98; 60]; OTab; OSpanClose;
+                    OSp (Some [48]); OOther; OCD [93; 93]; OCD [62]; OLit [9]; OBreak; OTab];
+             CPara []; CPara [OBreak; OCD [99]]] in
   cell_name_ok o_cell /\ legal_extra [([115], [49])] = true /\ legal_content cs = true /\
-  known_content cs = None /\ legal_ods_full o_covered (OsAttr [97] cs) = true /\
-  content_text cs = [32; 32; 32; 97; 32; 32; 98; 60; 93; 93; 62; 9; 10; 10; 99].
+  legal_ods_full o_covered (OsAttr [97] cs) = true /\
+  content_text cs = [32; 32; 32; 97; 32; 32; 98; 60; 9; 93; 93; 62; 9; 10; 9; 10; 10; 10; 99].
 Proof. cbn zeta. repeat split; try (left; reflexivity); vm_compute; reflexivity. Qed.
+
+(* the ST_Xstring layer on its boundary cases: what S says, and that M says the same through
+   read_string / read_cell.  a = 97, CR = 13, LF = 10, _ = 95, x = 120 *)
+Example C19_xstring_boundaries :
+  let u := 95 in let x := 120 in
+  xunescape [97; u; x; 48; 48; 48; 68; u] = [97; 13] /\                       (* a_x000D_ *)
+  xunescape [u; x; 48; 48; 48; 100; u] = [13] /\                               (* lower-case digits *)
+  xunescape [u; x; 48; 48; 53; 70; u; x; 48; 48; 48; 68; u] = [u; x; 48; 48; 48; 68; u] /\   (* _x005F_x000D_ *)
+  xunescape [u; x; 48; 48; 53; 102; u] = [u] /\                                (* _x005f_ *)
+  xunescape [u; x; 49; 50; u] = [u; x; 49; 50; u] /\                           (* _x12_: too short *)
+  xunescape [u; x; 48; 48; 48; 68] = [u; x; 48; 48; 48; 68] /\                 (* no closing _ *)
+  xunescape [u; 88; 48; 48; 48; 68; u] = [u; 88; 48; 48; 48; 68; u] /\         (* _X000D_: capital X *)
+  xunescape [u; x; 48; 48; 48; 71; u] = [u; x; 48; 48; 48; 71; u] /\           (* G is no hex digit *)
+  xunescape [u; x; 68; 56; 51; 68; u; u; x; 68; 69; 48; 48; u] =
+    [u; x; 68; 56; 51; 68; u; u; x; 68; 69; 48; 48; u] /\                      (* surrogates stay *)
+  xunescape [u; u; x; 48; 48; 52; 49; u] = [u; 65] /\                          (* __x0041_ *)
+  xunescape [u; x; 48; 48; u; x; 48; 48; 52; 49; u] = [u; x; 48; 48; 65] /\    (* overlap: second one *)
+  xunescape [u; x; 48; 48; 48; 48; u] = [0] /\                                 (* U+0000 *)
+  xescape excel_must [97; 13; u; x; 10; 65535] =
+    [97; u; x; 48; 48; 48; 68; u; u; x; 48; 48; 53; 70; u; x; 10; u; x; 70; 70; 70; 70; u] /\
+  (* an escape split over a Text / CDATA boundary inside one <t> is an escape *)
+  read_string n_si (item_events [] (FPlain false [TcText [97; u; x; 48; 48]; TcCData [48; 68; u]] []) ++ [End n_si])
+    = Ok (Some [97; 13], []) /\
+  (* an escape split over two runs is not *)
+  read_string n_si (item_events [] (FRich [PRun [] false [TcText [97; u; x; 48; 48]]; PRun [] false [TcText [48; 68; u]]])
+                    ++ [End n_si]) = Ok (Some [97; u; x; 48; 48; 48; 68; u], []) /\
+  (* the <v> of a t="str" cell *)
+  read_cell [] (cell_attrs [65; 49] (StFormula [] [TcText [u; x; 48; 48; 48; 97; u]]))
+            (cell_events [] (StFormula [] [TcText [u; x; 48; 48; 48; 97; u]])) = Ok (CString [10], []).
+Proof. cbn zeta. repeat split; vm_compute; reflexivity. Qed.
+
+(* the witnesses of the five repaired classes read as S says *)
+Example C19_former_witnesses :
+  (* F12 *) read_string n_si (item_events [] (FPlain false [TcCData [97; 60; 98]] []) ++ [End n_si]) = Ok (Some [97; 60; 98], []) /\
+  (* F34 *) read_shared_strings (sst_events [120] [] [([], FRich [PRun [] false [TcText [97]]]); ([], FRich [])]) = Ok [[97]; []] /\
+  (* F35, F36 *)
+  ods_cell o_cell (ods_cell_attrs [] (OsContent [CPara [OLit [97]; OTab; OLit [98]; OBreak; OLit [99]]]))
+           (ods_cell_events o_cell (OsContent [CPara [OLit [97]; OTab; OLit [98]; OBreak; OLit [99]]])) =
+    Ok (OString [97; 9; 98; 10; 99], [], []) /\
+  (* F37 *) read_string n_si (item_events [] (FPlain false [TcText [97; 95; 120; 48; 48; 48; 68; 95]] []) ++ [End n_si]) = Ok (Some [97; 13], []).
+Proof. repeat split; vm_compute; reflexivity. Qed.
 
 Example C19_utf16_nonvacuous :
   let s := [97; 233; 65279; 128512; 1114111; 65534] in
@@ -240,8 +300,10 @@ Example C19_lone_surrogate_nonvacuous :
   wf_utf16 [97; 55357; 56832] = true /\ Forall (fun c => c < 256) [97; 233].
 Proof. repeat split; try (repeat constructor; fail); vm_compute; reflexivity. Qed.
 
+Check C19_xstring_decode_is_spec : forall s, unescape_xstring s = xunescape s.
+Check C19_xstring_roundtrip : forall must s, xunescape (xescape must s) = s.
 Check C19_read_string_item : forall pfx cl f rest,
-  no_colon pfx = true -> cl_ok cl -> legal_form f = true -> known_item f = None ->
+  no_colon pfx = true -> cl_ok cl -> legal_form f = true ->
   read_string (qn pfx cl) (item_events pfx f ++ End (qn pfx cl) :: rest) = Ok (item_result f, rest).
 Check C19_cdata_is_text : forall pfx cl f rest,
   no_colon pfx = true -> cl_ok cl -> legal_form f = true ->
@@ -249,14 +311,13 @@ Check C19_cdata_is_text : forall pfx cl f rest,
   read_string (qn pfx cl) (item_events pfx (uncdata_form f) ++ End (qn pfx cl) :: rest).
 Check C19_shared_index_is_ith_item : forall pfx sattrs items,
   no_colon pfx = true ->
-  forallb (fun it => legal_form (snd it)) items = true -> known_items items = None ->
+  forallb (fun it => legal_form (snd it)) items = true ->
   exists strs, read_shared_strings (sst_events pfx sattrs items) = Ok strs /\
     length strs = length items /\
     forall i, nth_error strs i = option_map (fun it => item_text (snd it)) (nth_error items i).
 Check C19_text_survives_xlsx : forall pfx sattrs items ref st s rest,
   no_colon pfx = true ->
   forallb (fun it => legal_form (snd it)) items = true -> legal_store st = true ->
-  known_xlsx items st = None ->
   stored_text items st = Some s ->
   exists strings,
     read_shared_strings (sst_events pfx sattrs items) = Ok strings /\
@@ -273,21 +334,25 @@ Check C19_formula_text_survives : forall pfx cells,
   read_sheet_formulas (sheet_events pfx cells) = Ok (map fcell_spec cells).
 Check C19_text_survives_ods : forall cname extra st rest,
   cell_name_ok cname -> legal_extra extra = true -> legal_ods_full cname st = true ->
-  known_ods st = None ->
   ods_cell cname (ods_cell_attrs extra st) (ods_cell_events cname st ++ rest) =
   Ok (OString (ods_text st), [], rest).
+Check C19_ods_encode_survives : forall s rest,
+  ods_cell o_cell (ods_cell_attrs [] (OsContent (ods_encode s)))
+           (ods_cell_events o_cell (OsContent (ods_encode s)) ++ rest) = Ok (OString s, [], rest).
 Check C19_utf16_roundtrip : forall s, Forall scalar s -> utf16_decode (utf16_encode s) = s.
 Check C19_text_survives_utf16 : forall s rest,
   Forall scalar s -> utf16_len s <= U32MAX ->
   wide_str (enc_wide s ++ rest) = Ok (s, 4 + utf16_len s * 2).
 
+Print Assumptions C19_xstring_decode_is_spec.
+Print Assumptions C19_xstring_roundtrip.
+Print Assumptions C19_xstring_text_survives.
 Print Assumptions C19_read_string_item.
 Print Assumptions C19_runs_concatenate.
 Print Assumptions C19_runs_at_any_cuts.
 Print Assumptions C19_phonetic_contributes_nothing.
 Print Assumptions C19_cdata_is_text.
 Print Assumptions C19_shared_index_is_ith_item.
-Print Assumptions C19_shared_table_positional.
 Print Assumptions C19_text_survives_xlsx.
 Print Assumptions C19_sheet_text_survives.
 Print Assumptions C19_formula_text_survives.
@@ -301,7 +366,13 @@ Print Assumptions C19_utf16_decode_scalars.
 Print Assumptions C19_text_survives_utf16.
 Print Assumptions C19_decode_to_8bit.
 Print Assumptions C19_decode_to_16bit.
-Print Assumptions C19_refuted_F37.
-Print Assumptions C19_refuted_F37_formula.
-Print Assumptions C19_refuted_F35.
-Print Assumptions C19_refuted_F36.
+Print Assumptions C19_xstring_boundaries.
+Print Assumptions C19_former_witnesses.
+Print Assumptions C19_no_panic_read_string.
+Print Assumptions C19_no_panic_read_shared_strings.
+Print Assumptions C19_no_panic_read_cell.
+Print Assumptions C19_no_panic_read_sheet_cells.
+Print Assumptions C19_no_panic_read_sheet_formulas.
+Print Assumptions C19_no_panic_ods_cell.
+Print Assumptions C19_no_panic_wide_str.
+Print Assumptions C19_hardening_witnesses.
